@@ -75,6 +75,29 @@ def install_recorders(SL, log):
             setattr(SL, name, Rec(log, kind))
 
 
+def find_panel_recursion(SL):
+    """The private panel recursion of the operator: `__integrate` today; after a rename, the one bound method whose parameters are
+    (f, a, b, c, d).  None if no such method exists (layer A is then skipped - it is a structural extra, the values are layer B's)."""
+    import inspect
+    m = getattr(SL, '_SingleLayerOperator__integrate', None)
+    if m is not None:
+        return m
+    cands = []
+    for name in dir(type(SL)):
+        if name.startswith('__') and name.endswith('__'):
+            continue
+        fn = getattr(SL, name, None)
+        if not callable(fn):
+            continue
+        try:
+            params = list(inspect.signature(fn).parameters)
+        except (TypeError, ValueError):
+            continue
+        if params == ['f', 'a', 'b', 'c', 'd']:
+            cands.append(fn)
+    return cands[0] if len(cands) == 1 else None
+
+
 def layerA_curve(args):
     cname, lev = args
     g = curve(cname)
@@ -82,7 +105,9 @@ def layerA_curve(args):
     SL = universe.make_SL(cname)
     log = []
     install_recorders(SL, log)
-    integ = SL._SingleLayerOperator__integrate
+    integ = find_panel_recursion(SL)
+    if integ is None:
+        return cname, 0, 0, 0, [], 0, []  # the private recursion cannot be located on this tree: layer A not applicable, layer B decides
     ivs = dyadic_intervals(g, lev)
     dyadic = cname in ('UnitSquare', 'LShape', 'UnitInterval')
     viols = []
@@ -399,6 +424,8 @@ def run(ctx):
         for tag, det in viols:
             ctx.violation({'layer': 'A', 'curve': cname, 'tag': tag}, 'panel recursion on {}: {} {}'.format(cname, tag, det),
                           {'layer': 'A', 'curve': cname, 'level': levA, 'tag': tag, 'detail': det})
+    if statesA == 0:
+        ctx.note('layer A not applicable on this tree: the private panel recursion (a method with parameters f, a, b, c, d) was not found; the values (layer B) decide alone')
     resS = pmap(layerA_swap, list(CURVES), ctx.jobs, chunksize=1)
     nswap = 0
     for cname, n, viols, nv in resS:
